@@ -174,5 +174,9 @@ Small32 == /\ \A i \in 1..3 : AbsI(a[i]) < 20000 /\ AbsI(b[i]) < 200
 
 -----------------------------------------------------------------------------
 (* Emission of the maximal paths (spec -> code).                             *)
-Emit == Len(path) = MaxDepth => PrintT(ToJson([obj |-> obj, start |-> start, path |-> path]))
+\* every state once: the actions that lead to it and the expected observation after the last one (the harness
+\* rebuilds the tree of behaviours from these; the states with Len(path) = MaxDepth are the maximal behaviours)
+Emit == path # <<>> => PrintT(ToJson([obj |-> obj, start |-> start,
+                                      acts |-> [i \in DOMAIN path |-> <<path[i].act, path[i].arg>>],
+                                      last |-> path[Len(path)]]))
 =============================================================================
